@@ -200,6 +200,7 @@ func (p *Parser) arithmExprValue(compact bool) ArithmExpr {
 			x = p.wordOne(l)
 			break
 		}
+		p.checkLang(p.pos, langBashLike|LangMirBSDKorn|LangZsh, "arrays")
 		pe := &ParamExp{Short: true, Param: l}
 		pe.Index = p.eitherIndex()
 		x = p.wordOne(pe)
